@@ -75,6 +75,11 @@ func (a *keyArena) check() string {
 
 // drainGet reads both channels of a handler Get the way the orchestrators do.
 func drainGet(resChan <-chan common.GetResponse, errChan <-chan error) ([]common.GetResponse, error) {
+	return drainGetSlow(resChan, errChan, 0)
+}
+
+// drainGetSlow pauses after the first response (a slow client).
+func drainGetSlow(resChan <-chan common.GetResponse, errChan <-chan error, pause time.Duration) ([]common.GetResponse, error) {
 	var out []common.GetResponse
 	var err error
 	for resChan != nil || errChan != nil {
@@ -84,6 +89,9 @@ func drainGet(resChan <-chan common.GetResponse, errChan <-chan error) ([]common
 				resChan = nil
 			} else {
 				out = append(out, r)
+				if len(out) == 1 && pause > 0 {
+					time.Sleep(pause)
+				}
 			}
 		case e, ok := <-errChan:
 			if !ok {
@@ -197,7 +205,11 @@ func handlerExecRaw(h handlers.Handler, c wire.Cmd, spare int) (res wire.Result)
 		for i, k := range c.Keys {
 			_ = k
 			req.Keys = append(req.Keys, keyOf(i))
-			req.Opaques = append(req.Opaques, c.Opaque+uint32(i))
+			if c.SameOpaque {
+				req.Opaques = append(req.Opaques, c.Opaque)
+			} else {
+				req.Opaques = append(req.Opaques, c.Opaque+uint32(i))
+			}
 			req.Quiet = append(req.Quiet, (c.NoopEnd || i != len(c.Keys)-1) && !c.NonQuiet)
 		}
 		type one struct {
@@ -214,7 +226,7 @@ func handlerExecRaw(h handlers.Handler, c wire.Cmd, spare int) (res wire.Result)
 		if c.Op == "get" {
 			var rs []common.GetResponse
 			rc, ec := h.Get(req)
-			rs, err = drainGet(rc, ec)
+			rs, err = drainGetSlow(rc, ec, time.Duration(c.ConsumerPauseMs)*time.Millisecond)
 			for _, r := range rs {
 				got = append(got, one{string(r.Key), r.Opaque, r.Quiet, r.Miss, r.Flags, r.Data, 0})
 			}
@@ -233,6 +245,38 @@ func handlerExecRaw(h handlers.Handler, c wire.Cmd, spare int) (res wire.Result)
 		res.Class = model.OK
 		res.Terminators = 1
 		seen := make([]int, len(c.Keys))
+		if c.SameOpaque {
+			// responses can only be attributed by key: each key must be answered as often as asked
+			asked, answered := map[string]int{}, map[string]int{}
+			for _, k := range c.Keys {
+				asked[k]++
+			}
+			for _, g := range got {
+				answered[g.key]++
+				if g.opaque != c.Opaque {
+					res.Anomalies = append(res.Anomalies, "get response with an opaque that was not requested")
+				}
+				if _, ok := asked[g.key]; !ok {
+					res.Anomalies = append(res.Anomalies, "get response for a key that was not requested")
+					continue
+				}
+				if g.miss {
+					res.Misses++
+					continue
+				}
+				res.Values = append(res.Values, wire.Val{Key: g.key, Flags: g.flags, Data: g.data, Exptime: g.exp})
+			}
+			for _, k := range c.Keys {
+				if answered[k] != asked[k] {
+					res.Anomalies = append(res.Anomalies, fmt.Sprintf("%d responses for a key requested %d times", answered[k], asked[k]))
+					break
+				}
+			}
+			got = nil
+			for i := range seen {
+				seen[i] = 1
+			}
+		}
 		for _, g := range got {
 			idx := int(g.opaque - c.Opaque)
 			if idx < 0 || idx >= len(c.Keys) {
